@@ -220,6 +220,18 @@ def m_vec_insert(ex, a, callee, canon):
     raise Unsupported(f"insert on {v!r}")
 
 
+@model(r"^Vec::truncate$")
+def m_vec_truncate(ex, a, callee, canon):
+    p, n = a
+    v = p.get()
+    if isinstance(v, ListV):
+        k = ex.concretize(n.t, range(len(v.f) + 1))
+        if k is not None:
+            del v.f[k:]
+        return UNIT
+    raise Unsupported(f"truncate on {v!r}")
+
+
 @model(r"^Vec::clear$")
 def m_vec_clear(ex, a, callee, canon):
     p = a[0]
@@ -841,3 +853,9 @@ def m_discriminant_value(ex, a, callee, canon):
 @model(r"^(core|std)::panicking::|^core::panic|^std::rt::panic|begin_panic|panic_fmt|unwrap_failed|expect_failed|panic_bounds_check|slice_(start|end)_index_len_fail|slice_index_order_fail")
 def m_panic(ex, a, callee, canon):
     raise PathPanic("explicit panic: " + canon)
+
+
+# ------------------------------------------------------------------ ECDSA signing inside Transaction::sign*: opaque (EC arithmetic is outside E2)
+@model(r"ECDSA>?::sign_with_deterministic_k_impl$|ECDSA>?::sign_with_k_impl$")
+def m_ecdsa_sign(ex, a, callee, canon):
+    return ok(Opaque("Signature"))
